@@ -24,7 +24,7 @@ struct Obj { virtual ~Obj() {} };   // common base so that the graveyard can rel
 struct TimerCb : public Server::Timer::ICallback, public Obj { H* h; int slot; bool alive; long long start, interval, nextDue; long k; long long slowMs = 0; Server::Timer* handle; void onActivated() override; };
 struct ClientCb : public Server::Client::ICallback, public Obj {
   H* h; int slot; bool alive; bool maybeFailed = false; Server::Client* cl; int peerFd; Socket* peerSock; bool suspended; bool tcp; bool peerClosed; bool closedSeen; bool failedIo;
-  long long toServer, serverGot; long long backlogHint;
+  long long toServer, serverGot; long long backlogHint; int fd = -1; bool backlog = false;
   void onRead() override; void onWrite() override; void onClosed() override;
 };
 struct ListenerCb : public Server::Listener::ICallback, public Obj { H* h; int slot; bool alive; Server::Listener* handle; int port; int pendingConnects; Server::Client::ICallback* onAccepted(Server::Client& client, uint32 ip, uint16 port) override; };
@@ -35,6 +35,7 @@ struct H {
   TimerCb* timer[NT]; ClientCb* client[NCL]; ListenerCb* listener[NLI]; EstCb* est[NES];
   std::vector<Obj*> graveyard;   // callback objects of removed things stay allocated (and marked dead) until the end
   std::vector<const Op*> reactions; size_t nextReaction = 0;
+  std::vector<srv::Fault> faultPool; size_t nextFaultPool = 0;   // generated send outcomes for the sends that drain a backlog
   std::vector<int> looseFds;      // harness side descriptors of incoming connections not yet matched to an accepted client
   bool interruptRequested = false; long long lastDue = -1; bool inRun = false; long callbacks = 0; int depth = 0;
   long epollAtInterrupt = -1;
@@ -69,11 +70,13 @@ struct H {
     c->peerSock = new Socket; c->cl = srvp->pair(*c, *c->peerSock);
     if (!c->cl) fail("harness", "Server::pair failed");
     c->peerFd = (int)c->peerSock->getFileDescriptor(); client[slot] = c;
+    c->fd = (int)c->cl->getSocket().getFileDescriptor(); { LedgerPause lp; srv::st().watched[c->fd] = srv::SendLog(); }
   }
   void removeClient(int slot, bool self) {
     ClientCb* c = client[slot]; if (!c) return;
     if (self) ctx->label("client_removes_itself");
     if (hasPendingEvent(c)) ctx->label("removal_with_pending_event");
+    if (c->fd >= 0) { LedgerPause lp; srv::st().watched.erase(c->fd); }
     srvp->remove(*c->cl); c->alive = false; client[slot] = nullptr;
     if (c->peerSock) { delete c->peerSock; c->peerSock = nullptr; }
     c->peerFd = -1; { LedgerPause lp; graveyard.push_back(c); }
@@ -144,13 +147,38 @@ struct H {
     else if (nm == "establish" || nm == "r_establish") newEstablisher((int)(a % NES), (b & 1) ? (int)((b >> 1) % NLI) : -1);
     else if (nm == "rmest" || nm == "r_rmest") removeEst((int)(a % NES));
     else if (nm == "interrupt" || nm == "r_interrupt") { srvp->interrupt(); if (!interruptRequested) { interruptRequested = true; epollAtInterrupt = srv::st().epollCalls; } ctx->label(inRun ? "interrupt_during_run" : "interrupt_before_run"); }
-    else if (nm == "cwrite" || nm == "r_cwrite") { ClientCb* c = client[a % NCL]; if (c && !c->failedIo) { unsigned char buf[32]; memset(buf, 7, sizeof buf); if (!c->cl->write(buf, 1 + b % 32)) { c->failedIo = true; ctx->label("write_failed"); } } }
+    else if (nm == "cwrite" || nm == "r_cwrite") { ClientCb* c = client[a % NCL]; if (c && !c->failedIo) { unsigned char buf[32]; memset(buf, 7, sizeof buf); clientWrite(c, buf, 1 + b % 32); } }
+    else if (nm == "bigwrite" || nm == "r_bigwrite") {
+      // a write that the system takes only partly (or refuses): the rest becomes a backlog, the client is registered for writing and
+      // the loop has to send the backlog - through further generated send outcomes - and then deliver onWrite
+      int s = (int)(a % 4); if ((b & 1) && selfClient >= 0 && selfClient < 4) s = selfClient;
+      ClientCb* c = client[s];
+      if (c && !c->failedIo && !c->tcp) {
+        srv::State& st = srv::st(); { LedgerPause lp; st.faults.clear(); st.nextFault = 0;
+          long sel = op.a[2] < 0 ? -op.a[2] : op.a[2];
+          st.faults.push_back((sel & 1) ? srv::Fault{1, 0} : srv::Fault{2, 1 + (sel >> 1) % 20});
+          for (int q = 0; q < (int)((sel >> 6) % 4) && nextFaultPool < faultPool.size(); ++q) st.faults.push_back(faultPool[nextFaultPool++]); }
+        unsigned char buf[96]; memset(buf, 9, sizeof buf); clientWrite(c, buf, 40 + (size_t)(b % 50));
+        if (c->suspended && c->backlog) ctx->label("backlog_on_suspended_client");
+      }
+    }
+    else if (nm == "failrm" || nm == "r_failrm") {
+      // several clients fail in the same moment and one of them is removed before its onClosed is delivered
+      int failed[4]; int n = 0; for (int i = 0; i < 4; ++i) { ClientCb* c = client[i]; if (c && !c->failedIo && !c->peerClosed && i != selfClient) { peerClose(i); unsigned char z[8] = {1, 2, 3, 4, 5, 6, 7, 8}; c->cl->write(z, 8); if (!c->cl->write(z, 8)) { c->failedIo = true; failed[n++] = i; } } }
+      if (n >= 2) { ctx->label("several_clients_fail_together"); int v = failed[(b & 2) ? n - 1 : (int)((b >> 2) % n)]; removeClient(v, false); ctx->label("removal_with_pending_onClosed"); }
+    }
     else if (nm == "failall" || nm == "r_failall") {  // several clients fail at the same moment: the peers hang up and the next write of each client fails
       int n = 0; for (int i = 0; i < 4; ++i) { ClientCb* c = client[i]; if (c && !c->failedIo && !c->peerClosed) { peerClose(i); unsigned char z[8] = {1, 2, 3, 4, 5, 6, 7, 8}; c->cl->write(z, 8); if (!c->cl->write(z, 8)) { c->failedIo = true; ++n; } } }
       if (n >= 2) ctx->label("several_clients_fail_together");
     }
     else if (nm == "r_none") {}
     else ctx->count("unknown_op");
+  }
+  // every write of the harness goes through here: a postponed rest is a backlog that the loop has to send and acknowledge with onWrite
+  void clientWrite(ClientCb* c, const unsigned char* buf, size_t n) {
+    usize postponed = 0;
+    if (!c->cl->write(buf, (usize)n, &postponed)) { c->failedIo = true; ctx->label("write_failed"); return; }
+    if (postponed > 0) { c->backlog = true; ctx->label("backlog_created"); }
   }
   void react(int selfTimer, int selfClient) {
     if (nextReaction >= reactions.size() || depth > 0) return;
@@ -170,6 +198,7 @@ struct H {
       ClientCb* c = client[i];
       if (!c->suspended && !c->failedIo && c->toServer > c->serverGot) { char d[160]; snprintf(d, sizeof d, "the loop goes idle although client %d is readable (%lld unread bytes) and registered for reading", i, c->toServer - c->serverGot); fail("dispatch:readable-not-dispatched", d); }
       if (!c->suspended && c->peerClosed && !c->closedSeen && !c->failedIo && c->toServer == c->serverGot) { fail("dispatch:peer-close-not-dispatched", "the loop goes idle although the peer of client " + std::to_string(i) + " has closed and the client is registered for reading"); }
+      if (c->backlog && !c->failedIo && !c->peerClosed) fail("dispatch:backlog-not-dispatched", "the loop goes idle although client " + std::to_string(i) + " is writable and has a send backlog (registered for writing)");
       if (c->failedIo && !c->closedSeen) fail("dispatch:onClosed-missing", "a read or write of client " + std::to_string(i) + " failed but the loop goes idle without onClosed");
     }
   }
@@ -208,7 +237,12 @@ void ClientCb::onRead() {
   hh->ctx->label("onRead");
   hh->react(-1, me);
 }
-void ClientCb::onWrite() { ++h->callbacks; if (!alive) h->fail("removed:client-callback", "onWrite after remove() returned"); h->ctx->label("onWrite"); int me = slot; H* hh = h; hh->react(-1, me); }
+void ClientCb::onWrite() {
+  ++h->callbacks; if (!alive) h->fail("removed:client-callback", "onWrite after remove() returned");
+  if (!tcp && !backlog) h->fail("dispatch:onWrite-without-backlog", "onWrite delivered to client " + std::to_string(slot) + " which had no send backlog (it was not registered for writing)");
+  if (!tcp && cl->getSendBufferSize() != 0) h->fail("dispatch:onWrite-before-drained", "onWrite delivered while the send backlog is not empty");
+  backlog = false; h->ctx->label(suspended ? "onWrite_while_suspended" : "onWrite"); int me = slot; H* hh = h; hh->react(-1, me);
+}
 void ClientCb::onClosed() {
   ++h->callbacks; if (h->ctx->verbose) fprintf(stderr, "[%lld] client %d onClosed (alive %d)\n", h->now(), slot, (int)alive); if (!alive) h->fail("removed:client-callback", "onClosed after remove() returned");
   if (!failedIo && !peerClosed && !maybeFailed) h->fail("dispatch:onClosed-without-failure", "onClosed delivered although no read or write failed");
@@ -249,18 +283,19 @@ void pbt_warmup() {}
 
 void pbt_generate(Rng& r, int size, Case& c) {
   int n = 3 + (int)r.below((uint64_t)size + 1), nr = (int)r.below((uint64_t)size + 2), np = (int)r.below(12);
-  static const char* tops[] = {"timer", "rmtimer", "client", "rmclient", "peerwrite", "peerclose", "suspend", "resume", "listener", "rmlistener", "incoming", "establish", "rmest", "interrupt", "cwrite", "run", "failall"};
-  static const int wt[] = {22, 8, 10, 5, 12, 3, 3, 3, 4, 2, 5, 4, 2, 3, 4, 16, 3};
-  static const char* reacts[] = {"r_none", "r_timer", "r_rmtimer", "r_client", "r_rmclient", "r_peerwrite", "r_peerclose", "r_suspend", "r_resume", "r_rmlistener", "r_incoming", "r_rmest", "r_interrupt", "r_cwrite"};
-  static const int wr[] = {10, 14, 22, 4, 12, 8, 3, 4, 4, 3, 3, 3, 4, 4};
+  static const char* tops[] = {"timer", "rmtimer", "client", "rmclient", "peerwrite", "peerclose", "suspend", "resume", "listener", "rmlistener", "incoming", "establish", "rmest", "interrupt", "cwrite", "run", "failall", "bigwrite", "failrm"};
+  static const int wt[] = {22, 8, 10, 5, 12, 3, 3, 3, 4, 2, 5, 4, 2, 3, 4, 16, 3, 6, 3};
+  static const char* reacts[] = {"r_none", "r_timer", "r_rmtimer", "r_client", "r_rmclient", "r_peerwrite", "r_peerclose", "r_suspend", "r_resume", "r_rmlistener", "r_incoming", "r_rmest", "r_interrupt", "r_cwrite", "r_bigwrite", "r_failrm"};
+  static const int wr[] = {10, 14, 22, 4, 12, 8, 3, 4, 4, 3, 3, 3, 4, 4, 6, 2};
   bool burst = r.chance(40);   // many timers created in the same millisecond with equal intervals
   for (int k = 0; k < n; ++k) {
-    int o = r.weighted(wt, 17);
+    int o = r.weighted(wt, 19);
     long a = (long)r.below(64), b = (long)r.below(64);
     if (burst && o == 0) b = (long)(r.chance(70) ? 2 : r.below(7));
-    c.add(tops[o], a, b, (long)r.below(40));
+    c.add(tops[o], a, b, (long)r.below(o == 17 ? 1024 : 40));
   }
-  for (int k = 0; k < nr; ++k) { int o = r.weighted(wr, 14); c.add(reacts[o], (long)r.below(64), (long)r.below(64)); }
+  for (int k = 0; k < nr; ++k) { int o = r.weighted(wr, 16); c.add(reacts[o], (long)r.below(64), (long)r.below(64), (long)r.below(1 << 10)); }
+  { int nf = (int)r.below(8); for (int k = 0; k < nf; ++k) c.add("fault", (long)r.below(3), (long)(1 + r.below(30))); }
   for (int k = 0; k < np; ++k) c.add("perm", (long)r.below(1 << 16));
 }
 
@@ -273,7 +308,7 @@ void pbt_run(const Case& cs, Ctx& ctx) {
   srv::reset();
   H h; g = &h; h.ctx = &ctx;
   for (int i = 0; i < NT; ++i) h.timer[i] = nullptr; for (int i = 0; i < NCL; ++i) h.client[i] = nullptr; for (int i = 0; i < NLI; ++i) h.listener[i] = nullptr; for (int i = 0; i < NES; ++i) h.est[i] = nullptr;
-  { LedgerPause lp; for (const Op& op : cs.ops) { if (op.name.compare(0, 2, "r_") == 0) h.reactions.push_back(&op); else if (op.name == "perm") srv::st().permScript.push_back((unsigned)op.a[0]); } }
+  { LedgerPause lp; for (const Op& op : cs.ops) { if (op.name.compare(0, 2, "r_") == 0) h.reactions.push_back(&op); else if (op.name == "perm") srv::st().permScript.push_back((unsigned)op.a[0]); else if (op.name == "fault") h.faultPool.push_back(srv::Fault{(int)(((op.a[0] % 3) + 3) % 3), op.a[1] < 1 ? 1 : op.a[1]}); } }
   // the virtual clock must be in force before the Server exists: its constructor and time() read the clock, and a timer whose due
   // time was taken from the real clock (milliseconds since boot) lies arbitrarily far in the virtual past or future
   srv::st().active = true;
@@ -297,7 +332,7 @@ void pbt_run(const Case& cs, Ctx& ctx) {
   long idx = 0;
   for (const Op& op : cs.ops) {
     ctx.opIndex = idx++;
-    if (op.name.compare(0, 2, "r_") == 0 || op.name == "perm") continue;
+    if (op.name.compare(0, 2, "r_") == 0 || op.name == "perm" || op.name == "fault") continue;
     if (op.name == "run") { runLoop(1 + (op.a[2] < 0 ? -op.a[2] : op.a[2]) % 60); ctx.label("run"); }
     else h.doAction(op, -1, -1);
   }
@@ -316,6 +351,6 @@ void pbt_run(const Case& cs, Ctx& ctx) {
   for (int fd : h.looseFds) close(fd);
   for (Obj* p : h.graveyard) delete p;
   { LedgerPause lp; h.graveyard.clear(); h.graveyard.shrink_to_fit();
-    h.reactions.clear(); h.reactions.shrink_to_fit(); srv::st().permScript.clear(); srv::st().permScript.shrink_to_fit(); h.looseFds.clear(); h.looseFds.shrink_to_fit(); }
+    h.reactions.clear(); h.reactions.shrink_to_fit(); h.faultPool.clear(); h.faultPool.shrink_to_fit(); srv::st().faults.clear(); srv::st().faults.shrink_to_fit(); srv::st().watched.clear(); srv::st().permScript.clear(); srv::st().permScript.shrink_to_fit(); h.looseFds.clear(); h.looseFds.shrink_to_fit(); }
   g = nullptr;
 }
